@@ -238,6 +238,54 @@ def after_drop_case(args) -> Dict[str, Any]:
     return {"problems": probs, "rounds": env.rounds, "requests": sent}
 
 
+REFUSED = [("id-101", ("v2", 101, 0, b"nn")), ("id-150", ("v2", 150, 0, b"nn")), ("id-32767", ("v2", 32767, 0, b"nn")), ("id--1", ("v2", -1, 0, b"nn")),
+           ("id--3", ("v2", -3, 1, b"nn")), ("id--32768", ("v2", -32768, 0, b"")), ("taken-id", ("v2", 11, 0, b"nn")), ("taken-id-shared-asked", ("v2", 11, 1, b"nn")),
+           ("taken-name", ("v2", 31, 0, b"A")), ("taken-id-v1", ("v1", 11, 0, b"")), ("manager-name", ("v2", 31, 0, b"message_manager"))]
+
+
+def refused_case(args) -> Dict[str, Any]:
+    """connection requests the manager refuses (ids outside 1..100 on either side, an id or a name that is taken): no acknowledgement
+    to the requester, no copy to the logger - alone, after requests the connection sent before, and followed by a CONNECT"""
+    tc, label, before, follow = args[:4]
+    props = args[4] if len(args) > 4 else ("C19", "C03", "C06")
+    from .. import lock, mmx
+
+    req = dict(REFUSED)[label]
+    mmx.fresh_gc()
+    env = lock.Env(timecode=tc, fin_grace=1, hids={"A": 1, "N": 2, "G": 3})
+    a = hub.Alphabet(tc, {"A": (11, 0), "G": (60, 1), "N": (req[1], 0)})
+    probs: List[Dict[str, Any]] = []
+    try:
+        for s in ("G", "A"):
+            for ev in a.connect_v2(s, name=s.encode()) + [["settle"]]:
+                env.apply(ev)
+        env.apply(["conn", "N"])
+        env.settle()
+        for k in range(before):
+            env.apply(hub.ev_send("N", hub.frame(tc, P.MT_SUBSCRIBE, P.p_sub(T1 + k), src_mod_id=0)))
+            env.settle()
+        acks_before = sum(1 for k in env.received["N"] if k[0] == "ack")
+        copies_before = sum(1 for k in env.received["G"] if k[0] == "ack")
+        kind, mid, am, name = req
+        if kind == "v2":
+            fr = hub.frame(tc, P.MT_CONNECT_V2, P.p_connect_v2(0, 0, am, mid, 999, name), src_mod_id=mid)
+        else:
+            fr = hub.frame(tc, P.MT_CONNECT, P.p_connect(0, 0), src_mod_id=mid)
+        if follow:
+            fr += hub.frame(tc, P.MT_CONNECT, P.p_connect(0, 0), src_mod_id=mid)
+        env.apply(hub.ev_send("N", fr))
+        env.settle()
+        probs += [dict(p) for p in env.problems if p["prop"] in props]
+        if not env.dead and "C19" in props:
+            got = sum(1 for k in env.received["N"] if k[0] == "ack") - acks_before
+            cop = sum(1 for k in env.received["G"] if k[0] == "ack") - copies_before
+            if got or cop:
+                probs.append({"prop": "C19", "kind": "refused-request-acknowledged", "request": label, "acks_at_requester": got, "copies_at_logger": cop})
+    finally:
+        env.close()
+    return {"problems": probs, "rounds": env.rounds}
+
+
 def run(tier: str) -> int:
     chk = core.Check("C19", tier, "model_checking",
                      "BFS to fixpoint over connection/subscription states of the real MessageManager with the "
@@ -264,6 +312,12 @@ def run(tier: str) -> int:
         totals["transitions"] = totals.get("transitions", 0) + r["rounds"]
         for p in r["problems"]:
             chk.violation(f"{p['prop']}:{p['kind']}:after-drop", f"requests after a dropped delivery {darg}: {p}", {"module": "vf.checks.c19", "after_drop": list(darg)}, size=10)
+    rargs = [(tc, label, before, follow) for tc in (False, True) for label, _ in REFUSED for before in (0, 2) for follow in (False, True)]
+    for rarg, r in zip(rargs, core.pmap(refused_case, rargs)):
+        totals["transitions"] = totals.get("transitions", 0) + r["rounds"]
+        totals["refused_requests"] = totals.get("refused_requests", 0) + 1
+        for p in r["problems"]:
+            chk.violation(f"{p['prop']}:{p['kind']}:refused-request", f"refused connection request {rarg}: {p}", {"module": "vf.checks.c19", "refused": list(rarg)}, size=5)
     core.close_pool()
     trans = totals.get("transitions", 0) + totals.get("pair_transitions", 0)
     chk.merge_counts(totals)
@@ -273,7 +327,10 @@ def run(tier: str) -> int:
 
 
 def replay(case) -> int:
-    if "after_drop" in case:
+    if "refused" in case:
+        args = tuple(case["refused"])
+        r = refused_case(args)
+    elif "after_drop" in case:
         args = tuple(case["after_drop"])
         r = after_drop_case(args)
     else:
